@@ -211,6 +211,111 @@ theorem finish_again (cfg : Config) (ip : Bytes → IpClass) (proto : Nat) (imag
   simp only [hc, ↓reduceIte, hap, strip_id host hlast, hdd, hhead, Bool.false_eq_true, or_self, hport,
     pathWhitespace_pathchars cfg path hpath, hset, Int.toNat_natCast]
 
+/-! ### schemes -/
+
+theorem scheme_lower_facts : ∀ c : UInt8, ((!SCHEME.mem c || SCHEME.mem (lower c)) && (!SCHEME_FIRST.mem c || SCHEME_FIRST.mem (lower c))) = true :=
+  forall_octet _ (by decide +kernel)
+
+/-- every entry `FindProtocolType` can return is found again under its own image, and is the entry `image()` prints -/
+theorem registry_consistent :
+    protos.all (fun q => !q.findable || (imageOf q.id == q.image && findProtocolType q.image == q.id && q.id != PROTO_UNKNOWN)) = true := by
+  decide
+
+theorem findProtocolType_known {str : Bytes} (h : findProtocolType str ≠ PROTO_UNKNOWN) :
+    imageOf (findProtocolType str) = str.map lower ∧
+      findProtocolType (imageOf (findProtocolType str)) = findProtocolType str := by
+  unfold findProtocolType at h ⊢
+  cases hf : protos.find? (fun p => p.findable && p.image == str.map lower) with
+  | none => rw [hf] at h; exact absurd rfl h
+  | some q =>
+    simp only
+    have hq := List.find?_some hf
+    have hmem := List.mem_of_find?_eq_some hf
+    simp only [Bool.and_eq_true, beq_iff_eq] at hq
+    have ht := (List.all_eq_true.mp registry_consistent) q hmem
+    simp only [hq.1, Bool.not_true, Bool.false_or, Bool.and_eq_true, beq_iff_eq, bne_iff_ne] at ht
+    refine ⟨by rw [ht.1.1, hq.2], ?_⟩
+    rw [ht.1.1]
+    have := ht.1.2
+    unfold findProtocolType at this
+    exact this
+
+/-- what `uriParseScheme` accepted is read again as the same scheme when `image()` is printed in front of `:` -/
+theorem parseScheme_roundtrip {url image rest : Bytes} {proto : Nat} (h : parseScheme url = some (proto, image, rest)) :
+    ∀ x, parseScheme (image ++ 58 :: x) = some (proto, image, x) := by
+  intro x
+  unfold parseScheme at h
+  simp only at h
+  generalize hstr : ((url.take 16).takeWhile SCHEME.mem) = str at h
+  have hall : ∀ c ∈ str, SCHEME.mem c = true := by rw [← hstr]; exact all_takeWhile _ _
+  have hlen : str.length ≤ 16 := by
+    rw [← hstr]
+    have h1 : ((url.take 16).takeWhile SCHEME.mem ++ (url.take 16).dropWhile SCHEME.mem).length = (url.take 16).length := by
+      rw [List.takeWhile_append_dropWhile]
+    rw [List.length_append] at h1
+    have h2 := List.length_take_le 16 url
+    omega
+  cases str with
+  | nil => simp at h
+  | cons c0 r0 =>
+    simp only at h
+    split at h
+    · rename_i d rest' hd
+      split at h
+      · rename_i hcond
+        have hst : SchemeText (c0 :: r0) := ⟨by simp, hlen, hall, by simp [hcond.2]⟩
+        by_cases hu : findProtocolType (c0 :: r0) = PROTO_UNKNOWN
+        · simp only [hu, ↓reduceIte, Option.some.injEq, Prod.mk.injEq] at h
+          rcases h with ⟨rfl, rfl, rfl⟩
+          rw [parseScheme_text _ x hst]
+          simp [hu]
+        · simp only [hu, ↓reduceIte, Option.some.injEq, Prod.mk.injEq] at h
+          rcases h with ⟨rfl, rfl, rfl⟩
+          rcases findProtocolType_known hu with ⟨himg, hfind⟩
+          have hst2 : SchemeText (imageOf (findProtocolType (c0 :: r0))) := by
+            rw [himg]
+            refine ⟨by simp, by simpa using hlen, ?_, ?_⟩
+            · intro c hc
+              rcases List.mem_map.mp hc with ⟨b, hb, rfl⟩
+              have := scheme_lower_facts b
+              simp only [hall b hb, Bool.not_true, Bool.false_or, Bool.and_eq_true] at this
+              exact this.1
+            · have := scheme_lower_facts c0
+              simp only [hcond.2, Bool.not_true, Bool.false_or, Bool.and_eq_true] at this
+              simp [this.2]
+          rw [parseScheme_text _ x hst2, hfind]
+          simp [hu]
+      · simp at h
+    · simp at h
+
+
+/-- the scheme fields of an accepted non-CONNECT target with a host are what `uriParseScheme` returned -/
+theorem parse_scheme_of_ok {cfg : Config} {ip : Bytes → IpClass} {m : Method} {url : Bytes} {r : Parsed}
+    (h : parse cfg ip m url = .ok r) (hm : m ≠ .connect) (hhost : r.host ≠ []) (hurn : r.proto ≠ PROTO_URN) :
+    (∃ rest, parseScheme url = some (r.proto, r.image, rest)) ∧ r.proto ≠ PROTO_NONE := by
+  unfold parse at h
+  split at h
+  · simp at h
+  · split at h
+    · simp only [Outcome.ok.injEq] at h
+      subst h
+      exact absurd rfl hhost
+    · split at h
+      · simp at h
+      · rename_i proto image rest hs
+        split at h
+        · simp at h
+        · rename_i hnn
+          split at h
+          · exact absurd (parseUrn_ok h).1 hurn
+          · split at h
+            · split at h
+              · rcases parseHier_ok h with ⟨l, fh, p, pa, hf⟩
+                rcases finish_ok hf with ⟨_, _, _, _, _, _, _, _, _, hp, hi, _⟩
+                exact ⟨⟨_, by rw [hp, hi]; exact hs⟩, by rw [hp]; exact hnn⟩
+              · simp at h
+            · simp at h
+
 /-! ### the canonical form of a target without user info in it -/
 
 theorem absolute_simple (r : Parsed) (hurn : r.proto ≠ PROTO_URN)
